@@ -44,7 +44,12 @@ func (m *Mutex) TryLock() bool {
 }
 
 func (m *Mutex) Unlock() {
-	vsched.Point(vsched.KUnlock, uintptr(unsafe.Pointer(m)), nil)
+	if vsched.Point(vsched.KUnlock, uintptr(unsafe.Pointer(m)), nil) && m.mu.TryLock() {
+		// nobody holds it: the real Unlock would be an unrecoverable runtime fatal error;
+		// turn it into an ordinary panic so the explorer reports the schedule.
+		m.mu.Unlock()
+		panic("sync: unlock of unlocked mutex")
+	}
 	m.mu.Unlock()
 }
 
